@@ -128,6 +128,10 @@ func samePath(a, b ssa.Value) bool {
 		fb, ok2 := ub.X.(*ssa.FieldAddr)
 		return ok1 && ok2 && fa.Field == fb.Field && samePath(fa.X, fb.X)
 	}
+	if pa, ok1 := a.(*ssa.FieldAddr); ok1 {
+		pb, ok2 := b.(*ssa.FieldAddr)
+		return ok2 && pa.Field == pb.Field && samePath(pa.X, pb.X)
+	}
 	fa, ok1 := a.(*ssa.Field)
 	fb, ok2 := b.(*ssa.Field)
 	return ok1 && ok2 && fa.Field == fb.Field && samePath(fa.X, fb.X)
